@@ -157,14 +157,20 @@ def posterior(model, teams, ranks, beta, kappa, X, gamma=None, pair_scale=1, det
     return _finish(teams, s, omega, delta, kappa, X)
 
 
-def rate_spec(model, teams, ranks, scores, beta, kappa, tau, limit_sigma, X, gamma=None, pair_scale=1):
+def rate_spec(model, teams, ranks, scores, beta, kappa, tau, limit_sigma, X, gamma=None, pair_scale=1, agg=None, sizes=None):
     """rate() as the property describes it: tau inflation, outcome from ranks
     (or negated scores, or the presentation order), the model's update, the
-    limit_sigma clamp against the prior sigma."""
+    limit_sigma clamp against the prior sigma.
+    agg = (theta, s), sizes = [L_i]: teams of any size given by their aggregates *before* the
+    inflation (the inflated team variance is s_i + L_i tau^2); `teams` then lists the members wanted."""
     infl = [[(mu, X.sqrt(sg * sg + tau * tau)) for (mu, sg) in t] for t in teams]
     if ranks is None and scores is not None:
         ranks = [-x for x in scores]
-    post = posterior(model, infl, ranks, beta, kappa, X, gamma, pair_scale)
+    agg2 = None
+    if agg is not None:
+        theta, s = agg
+        agg2 = (list(theta), [s[i] + sizes[i] * (tau * tau) for i in range(len(s))])
+    post = posterior(model, infl, ranks, beta, kappa, X, gamma, pair_scale, agg=agg2)
     if limit_sigma:
         post = [[(mu2, X.min(sg2, sg0)) for (mu2, sg2), (mu0, sg0) in zip(tp, t0)] for tp, t0 in zip(post, teams)]
     return post
